@@ -1623,3 +1623,128 @@ def rule_array_inplace_cast(ctx: Ctx, rule: str = "array-inplace-cast") -> None:
                 else:
                     ctx.ok(rule, fi.key, construct)
     ctx.floor("in-place operations on possibly-integer arrays", n, 1)
+
+
+# ------------------------------------------------------------------ every read of a name is bound (all properties)
+def rule_definite_assignment(ctx: Ctx, rule: str = "definite-assignment") -> None:
+    """No path of any function of the package reads a local that nothing has bound yet (UnboundLocalError), nor a
+    name that exists nowhere (NameError): both are undocumented errors that surface only on the inputs taking that
+    path - the error branch of a try whose handler stopped re-raising, the side of a flag that lost its default."""
+    from .defassign import possibly_unbound, undefined_globals
+
+    prog = ctx.prog
+    if _DA_CACHE.get("digest") == prog.digest:
+        for kind, args in _DA_CACHE["verdicts"]:
+            getattr(ctx, kind)(*args[0], **args[1])
+        ctx.floor("functions examined for unbound reads", _DA_CACHE["n"], 150)
+        return
+    verdicts: List[Tuple[str, Tuple[tuple, dict]]] = []
+
+    real_ctx = ctx
+
+    class _Rec:
+        def ok(self, *a, **k):
+            verdicts.append(("ok", (a, k)))
+            real_ctx.ok(*a, **k)
+
+        def violation(self, *a, **k):
+            verdicts.append(("violation", (a, k)))
+            real_ctx.violation(*a, **k)
+
+        def cannot_decide(self, *a, **k):
+            verdicts.append(("cannot_decide", (a, k)))
+            real_ctx.cannot_decide(*a, **k)
+
+    ctx = _Rec()
+    exc = ExcTable(prog)
+    n = 0
+    from .defassign import locals_of
+
+    enclosing: Dict[int, Set[str]] = {}
+    for other in prog.all_functions():
+        if isinstance(other.node, ast.Lambda):
+            continue
+        oa = other.node.args
+        names = locals_of(other.node) | {x.arg for x in oa.posonlyargs + oa.args + oa.kwonlyargs}
+        for x in ast.walk(other.node):
+            if x is not other.node and isinstance(x, (ast.FunctionDef, ast.Lambda)):
+                enclosing.setdefault(id(x), set()).update(names)
+    for fi in prog.all_functions():
+        if fi.module.base == "plots":
+            continue
+        n += 1
+        construct = "%s: every local is bound before it is read, on every path" % fi.key
+        try:
+            bad = possibly_unbound(fi.node, exc)
+        except AnalysisError as ex:
+            ctx.cannot_decide(rule, fi.key, construct, str(ex))
+            continue
+        mod_names = set(fi.module.functions) | set(fi.module.classes) | set(fi.module.assigns) | set(fi.module.imports)
+        for st in fi.module.tree.body:
+            for x in ast.walk(st) if not isinstance(st, (ast.FunctionDef, ast.ClassDef)) else []:
+                if isinstance(x, ast.Name) and isinstance(x.ctx, ast.Store):
+                    mod_names.add(x.id)
+        # names of enclosing functions (closures) and of the class body are visible too
+        outer = enclosing.get(id(fi.node), set())
+        missing = undefined_globals(fi.node, mod_names | outer | {"__class__", "__name__", "__file__"})
+        if bad:
+            nm, ln, how = bad[0]
+            ctx.violation(rule, fi.key, construct, "`%s` is read at line %d (%s) on a path on which it has not been bound: UnboundLocalError instead of a documented outcome" % (nm, ln, how), where="%s:%d" % (fi.module.relpath, ln))
+        elif missing:
+            nm, ln = missing[0]
+            ctx.violation(rule, fi.key, construct, "`%s` (line %d) is bound nowhere: NameError when the line is reached" % (nm, ln), where="%s:%d" % (fi.module.relpath, ln))
+        else:
+            ctx.ok(rule, fi.key, construct, nontrivial=False)
+    _DA_CACHE.clear()
+    _DA_CACHE.update({"digest": prog.digest, "verdicts": verdicts, "n": n})
+    real_ctx.floor("functions examined for unbound reads", n, 150)
+
+
+_DA_CACHE: Dict[str, Any] = {}
+
+
+# ------------------------------------------------------------------ error messages that cannot be built (C14)
+def rule_raise_message_types(ctx: Ctx, rule: str = "raise-message") -> None:
+    """The argument of a raised error is built with string operations that exist: `text - text`, `text * text`,
+    `text / x` raise TypeError while the error is being constructed, so the documented error never leaves."""
+    prog = ctx.prog
+
+    def is_text(e: ast.AST) -> bool:
+        if isinstance(e, ast.Constant):
+            return isinstance(e.value, str)
+        if isinstance(e, ast.JoinedStr):
+            return True
+        if isinstance(e, ast.Call):
+            f = e.func
+            if isinstance(f, ast.Attribute) and f.attr in ("format", "join", "strip", "lower", "upper"):
+                return is_text(f.value) or f.attr in ("format", "join")
+            if isinstance(f, ast.Name) and f.id in ("str", "repr"):
+                return True
+        if isinstance(e, ast.BinOp) and isinstance(e.op, (ast.Add, ast.Mod)):
+            return is_text(e.left)
+        return False
+
+    n = 0
+    for fi in prog.all_functions():
+        if isinstance(fi.node, ast.Lambda) or fi.module.base == "plots":
+            continue
+        for node in ast.walk(fi.node):
+            if not isinstance(node, ast.Raise) or node.exc is None:
+                continue
+            n += 1
+            construct = "%s: the message of `raise %s` can be built" % (fi.key, exc_class_of(node.exc))
+            bad = None
+            for x in ast.walk(node.exc):
+                if isinstance(x, ast.BinOp) and not isinstance(x.op, (ast.Add, ast.Mod)):
+                    lt, rt = is_text(x.left), is_text(x.right)
+                    if (lt and rt) or ((lt or rt) and not isinstance(x.op, ast.Mult)):
+                        bad = x
+                if isinstance(x, ast.BinOp) and isinstance(x.op, ast.Add):
+                    for a_, b_ in ((x.left, x.right), (x.right, x.left)):
+                        if is_text(a_) and (isinstance(b_, (ast.List, ast.ListComp, ast.Dict, ast.Tuple, ast.Set)) or (isinstance(b_, ast.Constant) and isinstance(b_.value, (int, float)) and not isinstance(b_.value, bool))):
+                            bad = x
+            if bad is not None:
+                ctx.violation(rule, fi.key, construct, "`%s` is not an operation on text: building the message raises TypeError and the %s is never raised" % (norm(bad)[:80], exc_class_of(node.exc)), where="%s:%d" % (fi.module.relpath, node.lineno))
+            else:
+                ctx.ok(rule, fi.key, construct, nontrivial=False)
+    ctx.floor("raise statements examined", n, 40)
